@@ -65,6 +65,14 @@ def cases(tier, seed):
             for op2 in ("submit", "complete", "cancel", "fail"):
                 out.append({"name": "metrics.sweep/%s/%s|%s" % (layer, op, op2), "kind": "sweep", "layer": layer, "op": op, "op2": op2, "cap": cap})
     out.append({"name": "metrics.sweep-worker/timeout", "kind": "wsweep", "cap": 40 if tier == "quick" else None})
+    # an internal thread (suspended between picking a job and handing it over, re-queueing, polling ...) | client operation
+    for layer in ("retry", "throttle", "poll"):
+        for trig in ("submit", "fail", "complete"):
+            for op2 in ("cancel_last", "cancel", "complete", "submit"):
+                out.append({"name": "metrics.sweep-worker/%s/%s|%s" % (layer, trig, op2), "kind": "wsweep2", "layer": layer, "trig": trig,
+                            "op2": op2, "cap": None})
+    for layer in ("map", "flat_map", "retry", "poll", "throttle", "timeout", "cos"):
+        out.append({"name": "metrics.shutdown-raises/%s" % layer, "kind": "sdraises", "layer": layer})
     for layer in ("map", "retry", "poll", "throttle", "timeout", "cos", "flat_map"):
         out.append({"name": "metrics.double-shutdown/%s" % layer, "kind": "dblsd", "layer": layer, "cap": 30 if tier == "quick" else None})
     out.append({"name": "metrics.precancelled/cos", "kind": "precancelled"})
@@ -571,6 +579,88 @@ class TWScenario(object):
             res.key("wsweep", info.get("site"))
 
 
+class WorkerScenario(object):
+    def __init__(self, case):
+        self.case = case
+
+    def setup(self):
+        ctx = Ctx()
+        n0 = len(instr.TRACKED)
+        w = MW(ctx, [self.case["layer"]], 0)
+        ctx.w = w
+        ctx.threads = [t for t in instr.TRACKED[n0:]]
+        w.submit()
+        w.submit()
+        instr.advance(D)
+        return ctx
+
+    def victim_role(self, ctx):
+        return ctx.threads[-1].vf_role
+
+    def start_victim(self, ctx):
+        return ctx.actor("T", do_step, ctx.w, random.Random(1), self.case["trig"]).go()
+
+    def intervene(self, ctx):
+        do_step(ctx.w, random.Random(2), self.case["op2"])
+
+    def finish(self, ctx):
+        w = ctx.w
+        for _ in range(5):
+            for k in w.items_pending():
+                w.me.run(k)
+            instr.advance(2.5)
+
+    def oracle(self, ctx, res, info):
+        w = ctx.w
+        w.timeouts = count_timeouts(w)
+        w.compare(res, "%s placement=%s" % (self.case["name"], info.get("site")), final=True)
+        if info.get("hit"):
+            res.key("wsweep2", self.case["name"], info.get("site"))
+
+
+def run_sdraises(case, res):
+    """The wrapped executor's shutdown() raises (an old-style delegate that does not know cancel_futures): the
+    exception is the caller's, and the layer that was shut down is no longer counted as in use."""
+    begin("vt")
+    ctx = Ctx()
+    try:
+        w = MW(ctx, [case["layer"]], 0)
+
+        def bad_shutdown(wait=True):
+            raise AssertionError("unreachable")
+        real = w.me.shutdown
+
+        def old_style(wait=True):  # (no **kwargs: TypeError for cancel_futures=...)
+            return real(wait)
+        w.me.shutdown = old_style
+        w.submit()
+        instr.advance(D)
+        for k in w.items_pending():
+            w.me.run(k)
+        instr.advance(D)
+        raised = None
+        try:
+            w.top.shutdown(True, cancel_futures=True)
+        except TypeError as e:
+            raised = e
+        w.shut = True
+        instr.advance(D)
+        res.execs += 1
+        check_common(res)
+        if raised is None:
+            res.count("sdraises.delegate_did_not_raise")
+        w.me.shutdown = real
+        w.compare(res, case["name"], final=True)
+        try:
+            w.top.shutdown(True)
+        except Exception:
+            pass
+        w.compare(res, case["name"] + "/again", final=True)
+        res.key("sdraises", case["layer"], raised is not None)
+    finally:
+        end(ctx)
+
+
 def run_engaged(case, res):
     """The metrics code must really be the prometheus variant (engagement gate)."""
     begin("rt")
@@ -603,6 +693,10 @@ def run_case(case, res):
         run_precancelled(case, res)
     elif k == "combinators":
         run_combinators(case, res)
+    elif k == "wsweep2":
+        Sweep(WorkerScenario(case), res, "vt", case["name"]).run(case["cap"], random.Random("c20w/%s" % case["name"]), per_site=2)
+    elif k == "sdraises":
+        run_sdraises(case, res)
     elif k == "wsweep":
         rng = random.Random("c20w/%s" % case["seed"])
         Sweep(TWScenario(case), res, "vt", case["name"]).run(case["cap"], rng, per_site=3)
